@@ -1,6 +1,7 @@
 (* Model of tag resolution (C19) = the translated guard chain (Gen/JsonResolve.v, regenerated from the source on every
    run) + the one step after it that is still krrood's own code: a class that derives from SubclassJSONSerializer
-   but does not override _from_json inherits the base body ([base_from_json_body], also translated).
+   but does not override _from_json inherits the base body ([base_from_json_body], also translated; since dd15a30 it
+   raises ClassNotDeserializableError).
 
    Oracles are Section variables ranging over every behaviour documented for them:
      import_module : module | ModuleNotFoundError | ValueError (only for "") | TypeError (only for a relative name)
@@ -35,10 +36,18 @@ Section Resolve.
     | o => o
     end.
 
-  (* the defect class: the tag resolves to a SubclassJSONSerializer without _from_json (e.g. the base class itself) *)
+  (* the tag resolves to a SubclassJSONSerializer class without _from_json (e.g. the base class itself).  Since dd15a30
+     the inherited body raises ClassNotDeserializableError (it was NotImplementedError: former finding C19-b). *)
   Definition K_abstract (data : jv) : bool :=
     match chain data with
     | Return (FJ_CallClass c) => negb (implements_from_json c)
+    | _ => false
+    end.
+  (* ... and that class ALSO has a registered deserialiser: the only place where the code's answer (the documented
+     ClassNotDeserializableError) is not the one of the Spec's table (use the registered deserialiser) *)
+  Definition K_abstract_registered (data : jv) : bool :=
+    match chain data with
+    | Return (FJ_CallClass c) => negb (implements_from_json c) && opt_truthy (get_deserializer c)
     | _ => false
     end.
 
